@@ -52,6 +52,9 @@ def gen_world(seed, tier):
     for k in rng.sample(["optimize_with_safe_paths", "optimize_with_safe_zero_edges", "optimize_with_greedy", "optimize_with_safe_sequences",
                          "optimize_with_safety_as_subpath_constraints", "optimize_with_flow_safe_paths"], rng.randint(0, 2)):
         oo1[k] = rng.random() < 0.5
+    if rng.random() < 0.35:
+        oo1["optimize_with_safety_as_subpath_constraints"] = True
+        oo1["optimize_with_greedy"] = False
     if oo1.get("optimize_with_safe_sequences"):
         oo1["optimize_with_safe_paths"] = False
         oo1["optimize_with_flow_safe_paths"] = False
@@ -61,7 +64,12 @@ def gen_world(seed, tier):
     for k in rng.sample(["use_subgraph_scanning_lowerbound", "use_min_gen_set_lowerbound", "optimize_with_guessed_weights", "optimize_with_greedy"], rng.randint(1, 3)):
         oo2[k] = True if k != "optimize_with_greedy" else False
     pool["oo2"] = {"type": "dict", "v": oo2}
-    pool["so0"] = {"type": "dict", "v": {"threads": rng.choice([1, 2, 4])} if rng.random() < 0.5 else {}}
+    so0 = {"threads": rng.choice([1, 2, 4])} if rng.random() < 0.5 else {}
+    if rng.random() < 0.4:
+        so0["time_limit"] = rng.choice([50, 200, 3600])
+        if rng.random() < 0.3:
+            so0["use_also_custom_timeout"] = True
+    pool["so0"] = {"type": "dict", "v": so0}
     cons = gen.subpath_constraints(rng, gd, max_c=2)
     pool["cons0"] = {"type": "constraints", "v": cons}
     pool["ign0"] = {"type": "edges", "v": [[e[0], e[1]] for e in gd["edges"] if rng.random() < 0.2][:1]}
@@ -103,6 +111,9 @@ def gen_world(seed, tier):
         ops.append({"op": "construct", "h": h, "class": cname, "args": args})
         seq = ["solve"] + rng.sample(["get_solution", "get_solution", "get_objective_value", "get_objective_value", "solve", "is_valid_solution"], rng.randint(1, 4))
         for s in seq:
+            if rng.random() < 0.15:
+                # the caller does something else for a while: (virtual) wall time passes between two calls
+                ops.append({"op": "pause", "h": h, "seconds": rng.choice([30, 100, 1000, 5000])})
             ops.append({"op": s, "h": h})
         h += 1
     # interleave a little: move some getter ops of earlier models to the end
@@ -276,6 +287,10 @@ def execute(spec):
                 h = op["h"]
                 k = op["op"]
                 counters["op:" + k] = counters.get("op:" + k, 0) + 1
+                if k == "pause":
+                    sim.advance(float(op["seconds"]))
+                    sim.history.add("pause", seconds=op["seconds"])
+                    continue
                 if k == "construct":
                     info[h] = {"class": op["class"], "inv0": sim.inv, "exc": None, "solves": [], "sols": [], "objs": []}
                     for a, v in op["args"].items():
@@ -405,6 +420,11 @@ def shrink(spec):
         if o["op"] != "construct":
             c = copy.deepcopy(spec)
             del c["world"]["ops"][i]
+            yield c
+    for i, o in enumerate(w["ops"]):
+        if o["op"] == "pause" and o["seconds"] > 30:
+            c = copy.deepcopy(spec)
+            c["world"]["ops"][i]["seconds"] = 30
             yield c
     if w["sim"]["faults"]:
         c = copy.deepcopy(spec); c["world"]["sim"]["faults"] = []; yield c
